@@ -419,6 +419,7 @@ void runOne(const Op& op, Pending& pd, Ctx& ctx, Process*& kept) {
       uint32 ec = 0xfffa2;
       if (!P->join(ec)) failf(ctx, "join-failed", "join(exitCode) returned false");
       long want = form == 5 ? 77 : code;
+      if (form == 5 && ec == 78) failf(ctx, "mismatch:argv", "a child started without arguments did not even get its own name as argv[0] (empty argument vector)");
       if ((long)ec != want) failf(ctx, "mismatch:exit-code", "join() reported exit code " + std::to_string(ec) + ", the child exited with " + std::to_string(want));
       break;
     }
@@ -593,6 +594,11 @@ void runPair(const Op& op, Ctx& ctx) {
 }
 }  // namespace
 
+namespace {
+// the parent's own environment must survive every start / open unchanged (apart from what the case itself sets): a launch that
+// leaves ::environ pointing somewhere else poisons everything that comes later in the process
+std::vector<std::string> envSnapshot() { std::vector<std::string> v; for (char** e = environ; e && *e; ++e) if (strncmp(*e, "C20_", 4) != 0) v.push_back(*e); std::sort(v.begin(), v.end()); return v; }
+}
 void pbt_run(const Case& c, Ctx& ctx) {
   setenv(MARKER, "init", 1);
   unsetenv("C20_P0"); unsetenv("C20_P1"); unsetenv("C20_P2"); unsetenv("C20_MARKER2");   // a case is a pure function of its text
@@ -601,6 +607,7 @@ void pbt_run(const Case& c, Ctx& ctx) {
   {
     Pending pd;
     Process* kept = nullptr;
+    const std::vector<std::string> env0 = envSnapshot();
     long idx = 0; int runs = 0;
     for (const Op& op : c.ops) {
       ctx.opIndex = idx++;
@@ -639,6 +646,7 @@ void pbt_run(const Case& c, Ctx& ctx) {
         ++runs;
         runOne(op, pd, ctx, kept);
         pd = Pending();
+        if (envSnapshot() != env0) failf(ctx, "parent-environment-changed", "after a start / open the environment of the calling process differs from what it was before");
       } else if (op.name == "pair") {
         if (runs >= 4) { ctx.count("skipped"); continue; }
         ++runs;
